@@ -373,8 +373,8 @@ class Simulation:
         if what not in ['computed', 'keepresults', 'all']:
             raise TypeError(f"Unrecognized `what`: {what}.")
 
-        # Clean grid/model-dicts.
-        if what in ['keepresults', 'all']:
+        # Clean grid/model-dicts (not if the grids are provided by the user).
+        if what in ['keepresults', 'all'] and self.gridding != 'dict':
 
             # These exist always and have to be initiated.
             for name in ['_dict_grid', ]:
